@@ -793,10 +793,8 @@ func main() {
 		}
 		mu.Unlock()
 	}
-	concPatterns := []string{"SRS", "RSR", "MSRS"}
-	if !r.Quick() {
-		concPatterns = append(concPatterns, "SRSR", "RSRS")
-	}
+	// (the two-pause patterns run on every tree in the thorough tier, on every 6th tree with the same bytes under the key in the quick tier)
+	concPatterns := []string{"SRS", "RSR", "MSRS", "SRSR", "RSRS"}
 	var wg sync.WaitGroup
 	for _, w := range workers {
 		wg.Add(1)
@@ -870,6 +868,9 @@ func main() {
 						}
 						if two && g.idx >= len(trees)-nBig {
 							continue // the two-pause patterns are not run on the two large trees
+						}
+						if two && r.Quick() && (g.idx%6 != 0 || pre != "same") {
+							continue
 						}
 						for a := 1; a <= 200; a++ {
 							stopOuter := false
